@@ -33,6 +33,9 @@ def wrapOpt (rr : RRow) (r : R Val) : R Val :=
 /-- a device in its initial observation state: nothing logged, not rejecting -/
 def fresh (mem : Nat → UInt8) : Dev := ⟨mem, [], false⟩
 
+/-- the device after one more logged access (memory and `broken` unchanged) -/
+def logged (d : Dev) (a : Access) : Dev := { d with log := d.log ++ [a] }
+
 /-! ## 1. The generated tables are the standards' tables -/
 
 /-- **tables_match**: every `(offset, length)` constant of `device/src/u3v/register_map.rs`
@@ -42,10 +45,13 @@ theorem tables_match : Gen.RegMap.tables = Spec.U3V.tables := by decide
 
 /-- capability / configuration bit positions, the bit fields of the version, alignment,
 stream-enable and file-info decoders, the enumerant tables and the setter/getter pairing
-are the standards'. -/
+are the standards'; so are the numeric widths under the `ParseBytes` newtypes (used by
+`resolve` for `DeviceConfiguration` / `GenICamFileInfo` and by `layout` for the two capability
+words). -/
 theorem bits_match :
     Gen.RegMap.capBits = Spec.U3V.capBits ∧ Gen.RegMap.cfgBits = Spec.U3V.cfgBits ∧
     Gen.RegMap.cfgOps = Spec.U3V.cfgOps ∧ Gen.RegMap.pairs = Spec.U3V.pairs ∧
+    Gen.RegMap.newtypes = Spec.U3V.newtypes ∧
     fileInfoLayout = some (let S : Spec.U3V.FileInfoSpec := {}
       ⟨S.fileType, S.fileTypes, S.compression, S.compressions, S.schemaMajor, S.schemaMinor⟩) := by
   decide
@@ -405,6 +411,39 @@ example :
     ((⟨"Sirm.set_maximum_trailer_size", .sirm, .set, 0x2C, 4, .u32, none⟩ : RRow).run 0x20000 0
         (.nat 0x01020304) (fresh fun _ => 0)).2.log = [⟨.W, 0x2002C, 4, some [4, 3, 2, 1]⟩] := by decide
 
+/-- **setter_rejection_propagates**: when the device rejects the write (`broken`, or the
+register starts inside the address space but runs past its end) a setter whose argument
+has a byte image returns the device's error unchanged; the log gains exactly the one
+attempted write of `rr.len` bytes at the right address and memory is untouched.  (The
+complement of `setter_writes_right_register` for the device side.) -/
+theorem setter_rejection_propagates (r : Row) (hr : r ∈ Gen.RegMap.accessors) (hk : r.kind ≠ .get) :
+    ∃ rr, resolve r = some rr ∧
+      ∀ (base cap : Nat) (arg : Arg) (buf : Bytes) (d : Dev),
+        argOk rr.dec rr.kind arg = true → guardOpen rr cap = true →
+        (rr.base = .abrm ∨ base + rr.off < 2 ^ 64) → image rr arg = some buf →
+        d.rejects (regAddr rr.base base rr.off) rr.len = true →
+        rr.run base cap arg d = (.err .dev, logged d ⟨.W, regAddr rr.base base rr.off, rr.len, none⟩) := by
+  obtain ⟨rr, f⟩ := row_facts r hr
+  refine ⟨rr, f.resolved, ?_⟩
+  intro base cap arg buf d hok hg haddr him hrej
+  have hne : rr.kind ≠ .get := by rw [f.kind]; exact hk
+  have hdi := dump_image rr arg f.len f.setDec f.constDec hne hok
+  simp only [him] at hdi
+  obtain ⟨hd, hl⟩ := hdi
+  cases hkk : rr.kind with
+  | get => exact absurd hkk hne
+  | set =>
+    simp only [hkk] at hd
+    simp only [RRow.run, hkk, hg, if_true, setReg, addrOf_ok _ _ _ haddr, hd, Dev.write, hl, hrej, R.map, logged]
+  | setConst v =>
+    simp only [hkk] at hd
+    simp only [RRow.run, hkk, hg, if_true, setReg, addrOf_ok _ _ _ haddr, hd, Dev.write, hl, hrej, R.map, logged]
+
+/-- non-vacuity: a SIRM setter whose 4-byte register starts 2 bytes below 2^64 -/
+example :
+    ((⟨"Sirm.set_maximum_trailer_size", .sirm, .set, 0x2C, 4, .u32, none⟩ : RRow).run (2 ^ 64 - 0x2E) 0
+        (.nat 7) (fresh fun _ => 0)).1 = .err .dev := by decide
+
 /-! ## 7. Setter → getter round trip -/
 
 private theorem rowOf_mem {name : String} {rr : RRow} (h : rowOf name = some rr) :
@@ -586,68 +625,98 @@ example :
     (rg.run 0 1 .none (rs.run 0 1 (.str name) (fresh fun _ => 0xAA)).2).1 = .ok (.some (.str name)) := by
   decide
 
-/-! ## 8. Structural accessors -/
+/-! ## 8. Structural accessors (any device state: prior log, rejecting or not) -/
 
 /-- the constants the structural accessors use, as the standards give them -/
 def L0 : Layout :=
-  { devCap := (0x01C4, 8), u3vCap := (0x0004, 8),
+  { devCap := (0x01C4, 8), devCapWidth := 8, u3vCap := (0x0004, 8), u3vCapWidth := 8,
     sbrmAddress := ⟨"Abrm.sbrm_address", .abrm, .get, 0x01D8, 8, .u64, none⟩,
     manifestTableAddress := ⟨"Abrm.manifest_table_address", .abrm, .get, 0x01D0, 8, .u64, none⟩,
     sirmAddress := ⟨"Sbrm.sirm_address", .sbrm, .get, 0x0020, 8, .u64, some 0⟩ }
 
 /-- `Abrm::new`, `Sbrm::new`, `Abrm::sbrm`, `Abrm::manifest_table`, `Sbrm::sirm` use the
-standards' device-capability (ABRM 0x1C4, 8 bytes) and U3VCP-capability (SBRM+4, 8 bytes)
-registers and the address registers 0x1D8 / 0x1D0 / SBRM+0x20. -/
+standards' device-capability (ABRM 0x1C4, 8 bytes, u64) and U3VCP-capability (SBRM+4, 8 bytes,
+u64) registers and the address registers 0x1D8 / 0x1D0 / SBRM+0x20. -/
 theorem layout_spec : layout = some L0 := by decide
 
-/-- `Abrm::new` reads the 8-byte device capability word at 0x01C4, nothing else. -/
-theorem abrm_new_reads_capability (mem : Nat → UInt8) :
-    abrmNew L0 (fresh mem) =
-      (.ok (.abrm (fromLE (readBytes mem 0x01C4 8))), ⟨mem, [⟨.R, 0x01C4, 8, some (readBytes mem 0x01C4 8)⟩], false⟩) := by
-  simp [abrmNew, L0, fresh, Dev.read, Dev.rejects, parseNum_ok, R.map]
+private theorem read_rej {d : Dev} {a n : Nat} (h : d.rejects a n = true) :
+    d.read a n = (.err .dev, logged d ⟨.R, a, n, none⟩) := by
+  simp [Dev.read, h, logged]
 
-/-- `Sbrm::new(base)` reads the 8-byte U3VCP capability word at `base + 4`, nothing else. -/
-theorem sbrm_new_reads_capability (mem : Nat → UInt8) (base : Nat) (h : base + 4 + 8 ≤ 2 ^ 64) :
-    sbrmNew L0 base (fresh mem) =
-      (.ok (.sbrm base (fromLE (readBytes mem (base + 4) 8))),
-       ⟨mem, [⟨.R, base + 4, 8, some (readBytes mem (base + 4) 8)⟩], false⟩) := by
-  have h1 : base + 4 < 2 ^ 64 := by omega
-  have h2 : ¬ 2 ^ 64 < base + 4 + 8 := by omega
-  simp [sbrmNew, L0, fresh, registerAddress, h1, Dev.read, Dev.rejects, h2, parseNum_ok, R.map]
+private theorem read_acc {d : Dev} {a n : Nat} (h : ¬ d.rejects a n = true) :
+    d.read a n = (.ok (readBytes d.mem a n), logged d ⟨.R, a, n, some (readBytes d.mem a n)⟩) := by
+  simp [Dev.read, h, logged]
 
-/-- `ManifestTable::entries` reads the 8-byte entry count `n` at the table address and
-nothing else; it yields `n` entries, the `i`-th at `base + 8 + 64 i`, iff the whole table
-`[base + 8, base + 8 + 64 n)` lies below the end of the address space, and reports
-`InvalidDevice` otherwise (no panic, no wrapped entry address). -/
-theorem entries_spec (mem : Nat → UInt8) (base : Nat) (h : base + 8 ≤ 2 ^ 64) :
-    tableEntries base (fresh mem) =
-      (if base + 8 + 64 * fromLE (readBytes mem base 8) < 2 ^ 64
-        then .ok (.entries (fromLE (readBytes mem base 8)) (base + 8)) else .err .invalidDevice,
-       ⟨mem, [⟨.R, base, 8, some (readBytes mem base 8)⟩], false⟩) := by
+/-- `Abrm::new` performs exactly one access, a read of the 8-byte device capability word at
+0x01C4: a rejecting device's error is returned unchanged, otherwise the little-endian word. -/
+theorem abrm_new_reads_capability (d : Dev) :
+    abrmNew L0 d =
+      if d.rejects 0x01C4 8 = true then (.err .dev, logged d ⟨.R, 0x01C4, 8, none⟩)
+      else (.ok (.abrm (fromLE (readBytes d.mem 0x01C4 8))),
+            logged d ⟨.R, 0x01C4, 8, some (readBytes d.mem 0x01C4 8)⟩) := by
+  by_cases hr : d.rejects 0x01C4 8 = true
+  · simp only [abrmNew, L0, read_rej hr, hr, if_true]
+  · simp only [abrmNew, L0, read_acc hr, parseNum_ok 8 _ (readBytes_length _ _ _), R.map]
+    simp [hr]
+
+/-- `Sbrm::new(base)`: `InvalidDevice` without access if `base + 4` overflows; otherwise
+exactly one read of the 8-byte U3VCP capability word at `base + 4`. -/
+theorem sbrm_new_reads_capability (d : Dev) (base : Nat) :
+    sbrmNew L0 base d =
+      if 2 ^ 64 ≤ base + 4 then (.err .invalidDevice, d)
+      else if d.rejects (base + 4) 8 = true then (.err .dev, logged d ⟨.R, base + 4, 8, none⟩)
+      else (.ok (.sbrm base (fromLE (readBytes d.mem (base + 4) 8))),
+            logged d ⟨.R, base + 4, 8, some (readBytes d.mem (base + 4) 8)⟩) := by
+  by_cases h : 2 ^ 64 ≤ base + 4
+  · have : ¬ base + 4 < 2 ^ 64 := by omega
+    simp only [sbrmNew, L0, registerAddress, this, h, if_true, if_false]
+  · have : base + 4 < 2 ^ 64 := by omega
+    by_cases hr : d.rejects (base + 4) 8 = true
+    · simp only [sbrmNew, L0, registerAddress, this, h, if_true, if_false, read_rej hr, hr]
+    · simp only [sbrmNew, L0, registerAddress, this, h, if_true, if_false, read_acc hr,
+        parseNum_ok 8 _ (readBytes_length _ _ _), R.map]
+      simp [hr]
+
+/-- `Abrm::manifest_table` performs exactly one access, a read of the 8-byte manifest table
+address register at 0x01D0, and wraps the little-endian value. -/
+theorem abrm_manifest_table_reads (d : Dev) (cap : Nat) :
+    abrmManifestTable L0 cap d =
+      if d.rejects 0x01D0 8 = true then (.err .dev, logged d ⟨.R, 0x01D0, 8, none⟩)
+      else (.ok (.table (fromLE (readBytes d.mem 0x01D0 8))),
+            logged d ⟨.R, 0x01D0, 8, some (readBytes d.mem 0x01D0 8)⟩) := by
+  by_cases hr : d.rejects 0x01D0 8 = true
+  · simp only [abrmManifestTable, L0, RRow.run, getReg, addrOf, readRegister, read_rej hr, hr, if_true]
+  · simp only [abrmManifestTable, L0, RRow.run, getReg, addrOf, readRegister, read_acc hr,
+      parse, parseNum_ok 8 _ (readBytes_length _ _ _), R.map]
+    simp [hr]
+
+/-- `ManifestTable::entries` performs exactly one access, a read of the 8-byte entry count
+`n` at the table address.  It yields `n` entries, the `i`-th at `base + 8 + 64 i`, **iff** the
+whole table `[base, base + 8 + 64 n)` lies inside the 64-bit address space (its end may be
+exactly 2^64), and reports `InvalidDevice` otherwise — no panic, no wrapped entry address. -/
+theorem entries_spec (d : Dev) (base : Nat) (hb : base < 2 ^ 64) :
+    tableEntries base d =
+      if d.rejects base 8 = true then (.err .dev, logged d ⟨.R, base, 8, none⟩)
+      else (if base + 8 + 64 * fromLE (readBytes d.mem base 8) ≤ 2 ^ 64
+              then .ok (.entries (fromLE (readBytes d.mem base 8)) (base + 8)) else .err .invalidDevice,
+            logged d ⟨.R, base, 8, some (readBytes d.mem base 8)⟩) := by
   have e1 : (registerAddress base 0 : R Nat) = .ok base := by
-    have : base < 2 ^ 64 := by omega
-    simp only [registerAddress, Nat.add_zero, this, if_true]
-  have e2 : (fresh mem).read base 8 =
-      (.ok (readBytes mem base 8), ⟨mem, [⟨.R, base, 8, some (readBytes mem base 8)⟩], false⟩) := by
-    have : ¬ 2 ^ 64 < base + 8 := by omega
-    simp only [Dev.read, Dev.rejects, fresh, Bool.false_or, decide_eq_true_eq, this, if_false, List.nil_append]
-  have e3 := parseNum_ok 8 (readBytes mem base 8) (readBytes_length _ _ _)
-  simp only [tableEntries, e1, e2, e3]
-  by_cases h3 : base + 8 < 2 ^ 64
-  · have e4 : (registerAddress base 8 : R Nat) = .ok (base + 8) := by
-      simp only [registerAddress, h3, if_true]
-    simp only [e4]
-    by_cases h4 : base + 8 + 64 * fromLE (readBytes mem base 8) < 2 ^ 64
-    · have : fromLE (readBytes mem base 8) * 64 < 2 ^ 64 ∧ base + 8 + fromLE (readBytes mem base 8) * 64 < 2 ^ 64 := by
-        omega
-      simp only [h4, this, and_self, if_true]
-    · have : ¬ (fromLE (readBytes mem base 8) * 64 < 2 ^ 64 ∧ base + 8 + fromLE (readBytes mem base 8) * 64 < 2 ^ 64) := by
-        omega
-      simp only [h4, this, if_false]
-  · have e4 : (registerAddress base 8 : R Nat) = .err .invalidDevice := by
-      simp only [registerAddress, h3, if_false]
-    have h4 : ¬ base + 8 + 64 * fromLE (readBytes mem base 8) < 2 ^ 64 := by omega
-    simp only [e4, h4, if_false]
+    simp only [registerAddress, Nat.add_zero, hb, if_true]
+  by_cases hr : d.rejects base 8 = true
+  · simp only [tableEntries, e1, read_rej hr, hr, if_true]
+  · simp only [tableEntries, e1, read_acc hr, parseNum_ok 8 _ (readBytes_length _ _ _)]
+    by_cases h4 : base + 8 + 64 * fromLE (readBytes d.mem base 8) ≤ 2 ^ 64
+    · have : ¬ base + 8 + fromLE (readBytes d.mem base 8) * 64 > 2 ^ 64 := by omega
+      simp only [h4, this, if_true, if_false]
+      simp [hr]
+    · have : base + 8 + fromLE (readBytes d.mem base 8) * 64 > 2 ^ 64 := by omega
+      simp only [h4, this, if_true, if_false]
+      simp [hr]
+
+/-- non-vacuity / the boundary the first version of fix a9ca270 got wrong (repaired by
+2f80436): a one-entry table whose entry occupies the last 64 bytes of the address space -/
+example : (tableEntries (2 ^ 64 - 72) (fresh fun a => if a = 2 ^ 64 - 72 then 1 else 0)).1
+    = .ok (.entries 1 (2 ^ 64 - 64)) := by decide
 
 /-- the entries the iterator yields are disjoint 64-byte records inside the table -/
 theorem entry_addresses (first n i : Nat) (hi : i < n) :
@@ -732,7 +801,9 @@ private theorem run_ne_panic (r : Row) (rr : RRow) (f : RowFacts r rr) (base cap
 private theorem abrmNew_ne_panic (d : Dev) : (abrmNew L0 d).1 ≠ .panic := by
   unfold abrmNew
   rcases read_cases d L0.devCap.1 L0.devCap.2 with ⟨d', hr⟩ | ⟨d', hr⟩
-  · rw [hr]; simp [parseNum_ok 8 _ (readBytes_length d.mem L0.devCap.1 L0.devCap.2), R.map]
+  · rw [hr]
+    have h8 := parseNum_ok L0.devCapWidth (readBytes d.mem L0.devCap.1 L0.devCap.2) (by simp [L0])
+    simp [h8, R.map]
   · rw [hr]; simp
 
 private theorem sbrmNew_ne_panic (base : Nat) (d : Dev) : (sbrmNew L0 base d).1 ≠ .panic := by
@@ -740,7 +811,9 @@ private theorem sbrmNew_ne_panic (base : Nat) (d : Dev) : (sbrmNew L0 base d).1 
   by_cases h : base + L0.u3vCap.1 < 2 ^ 64
   · simp only [registerAddress, h, if_true]
     rcases read_cases d (base + L0.u3vCap.1) L0.u3vCap.2 with ⟨d', hr⟩ | ⟨d', hr⟩
-    · rw [hr]; simp [parseNum_ok 8 _ (readBytes_length d.mem (base + L0.u3vCap.1) L0.u3vCap.2), R.map]
+    · rw [hr]
+      have h8 := parseNum_ok L0.u3vCapWidth (readBytes d.mem (base + L0.u3vCap.1) L0.u3vCap.2) (by simp [L0])
+      simp [h8, R.map]
     · rw [hr]; simp
   · simp only [registerAddress, h, if_false]
     simp
@@ -811,11 +884,7 @@ private theorem tableEntries_ne_panic (base : Nat) (d : Dev) : (tableEntries bas
     rcases read_cases d (base + 0) 8 with ⟨d', hr⟩ | ⟨d', hr⟩
     · rw [hr]
       simp only [parseNum_ok 8 _ (readBytes_length d.mem (base + 0) 8)]
-      by_cases h8 : base + 8 < 2 ^ 64
-      · simp only [h8, if_true]
-        split <;> simp
-      · simp only [h8, if_false]
-        simp
+      split <;> simp
     · rw [hr]; simp
   · simp only [registerAddress, h0, if_false]
     simp
@@ -875,37 +944,44 @@ theorem guard_is_bit_set (raw bit : Nat) : isBitSet raw bit = raw.testBit bit :=
   have := Nat.mod_two_eq_zero_or_one (raw >>> bit)
   rcases this with h | h <;> simp [h]
 
-/-- `Abrm::sbrm` navigates as the standards describe: the SBRM address `a` is the u64 at
-ABRM 0x01D8, then `Sbrm::new(a)` reads the U3VCP capability word at `a + 4`; exactly these
-two reads, in this order. -/
-theorem abrm_sbrm_navigates (mem : Nat → UInt8) (cap : Nat)
-    (h : fromLE (readBytes mem 0x01D8 8) + 4 + 8 ≤ 2 ^ 64) :
-    abrmSbrm L0 cap (fresh mem) =
-      (.ok (.sbrm (fromLE (readBytes mem 0x01D8 8)) (fromLE (readBytes mem (fromLE (readBytes mem 0x01D8 8) + 4) 8))),
-       ⟨mem, [⟨.R, 0x01D8, 8, some (readBytes mem 0x01D8 8)⟩,
-              ⟨.R, fromLE (readBytes mem 0x01D8 8) + 4, 8,
-                some (readBytes mem (fromLE (readBytes mem 0x01D8 8) + 4) 8)⟩], false⟩) := by
-  have h1 : fromLE (readBytes mem 0x01D8 8) + 4 < 2 ^ 64 := by omega
-  have h2 : ¬ 2 ^ 64 < fromLE (readBytes mem 0x01D8 8) + 4 + 8 := by omega
-  have e1 : L0.sbrmAddress.run 0 cap .none (fresh mem) =
-      (.ok (.nat (fromLE (readBytes mem 0x01D8 8))), ⟨mem, [⟨.R, 0x01D8, 8, some (readBytes mem 0x01D8 8)⟩], false⟩) := by
-    simp [RRow.run, L0, getReg, addrOf, readRegister, fresh, Dev.read, Dev.rejects, parse, parseNum_ok, R.map]
-  simp only [abrmSbrm, e1]
-  simp [sbrmNew, L0, registerAddress, h1, Dev.read, Dev.rejects, h2, parseNum_ok, R.map]
+/-- `Abrm::sbrm` navigates as the standards describe, on any device: the SBRM address `a` is
+the u64 read at ABRM 0x01D8 (a rejected read returns the device's error after that one
+attempt), then exactly `Sbrm::new(a)` on the resulting device — whose behaviour, including
+`a + 4` overflowing and a rejected capability read, is `sbrm_new_reads_capability`. -/
+theorem abrm_sbrm_navigates (d : Dev) (cap : Nat) :
+    abrmSbrm L0 cap d =
+      if d.rejects 0x01D8 8 = true then (.err .dev, logged d ⟨.R, 0x01D8, 8, none⟩)
+      else sbrmNew L0 (fromLE (readBytes d.mem 0x01D8 8))
+             (logged d ⟨.R, 0x01D8, 8, some (readBytes d.mem 0x01D8 8)⟩) := by
+  have hrow : L0.sbrmAddress = ⟨"Abrm.sbrm_address", .abrm, .get, 0x01D8, 8, .u64, none⟩ := rfl
+  by_cases hr : d.rejects 0x01D8 8 = true
+  · simp only [abrmSbrm, hrow, RRow.run, getReg, addrOf, readRegister, read_rej hr, hr, if_true]
+  · simp only [abrmSbrm, hrow, RRow.run, getReg, addrOf, readRegister, read_acc hr,
+      parse, parseNum_ok 8 _ (readBytes_length _ _ _), R.map]
+    simp [hr]
 
-/-- `Sbrm::sirm` is `None` without device access when the SIRM-available bit (U3VCP
-capability bit 0) is clear, and otherwise the u64 at `SBRM + 0x20` -/
-theorem sbrm_sirm_navigates (mem : Nat → UInt8) (base cap : Nat) (h : base + 0x20 + 8 ≤ 2 ^ 64) :
-    sbrmSirm L0 base cap (fresh mem) =
-      if cap.testBit 0 then
-        (.ok (.some (.sirm (fromLE (readBytes mem (base + 0x20) 8)))),
-         ⟨mem, [⟨.R, base + 0x20, 8, some (readBytes mem (base + 0x20) 8)⟩], false⟩)
-      else (.ok .none, fresh mem) := by
-  have h1 : base + 0x20 < 2 ^ 64 := by omega
-  have h2 : ¬ 2 ^ 64 < base + 0x20 + 8 := by omega
+/-- `Sbrm::sirm` on any device: `None` without access when the SIRM-available bit (U3VCP
+capability bit 0) is clear; `InvalidDevice` without access if `SBRM + 0x20` overflows;
+otherwise exactly one read of the u64 at `SBRM + 0x20` (a rejected read returns the device's
+error). -/
+theorem sbrm_sirm_navigates (d : Dev) (base cap : Nat) :
+    sbrmSirm L0 base cap d =
+      if cap.testBit 0 = false then (.ok .none, d)
+      else if 2 ^ 64 ≤ base + 0x20 then (.err .invalidDevice, d)
+      else if d.rejects (base + 0x20) 8 = true then (.err .dev, logged d ⟨.R, base + 0x20, 8, none⟩)
+      else (.ok (.some (.sirm (fromLE (readBytes d.mem (base + 0x20) 8)))),
+            logged d ⟨.R, base + 0x20, 8, some (readBytes d.mem (base + 0x20) 8)⟩) := by
   by_cases hb : cap.testBit 0 = true
-  · simp [sbrmSirm, RRow.run, L0, hb, getReg, addrOf, registerAddress, h1, readRegister, fresh, Dev.read,
-      Dev.rejects, h2, parse, parseNum_ok, R.map]
-  · simp [sbrmSirm, RRow.run, L0, hb, fresh]
+  · by_cases h : 2 ^ 64 ≤ base + 0x20
+    · have : ¬ base + 0x20 < 2 ^ 64 := by omega
+      simp [sbrmSirm, L0, RRow.run, hb, getReg, addrOf, registerAddress, this, h, R.map]
+    · have h1 : base + 0x20 < 2 ^ 64 := by omega
+      by_cases hr : d.rejects (base + 0x20) 8 = true
+      · simp only [sbrmSirm, L0, RRow.run, hb, if_true, getReg, addrOf, registerAddress, h1, readRegister,
+          read_rej hr, hr, h, if_false, Bool.true_eq_false, R.map]
+      · simp only [sbrmSirm, L0, RRow.run, hb, if_true, getReg, addrOf, registerAddress, h1, readRegister,
+          read_acc hr, h, if_false, Bool.true_eq_false, parse, parseNum_ok 8 _ (readBytes_length _ _ _), R.map]
+        simp [hr]
+  · simp [sbrmSirm, L0, RRow.run, hb]
 
 end CamVerif.C13
